@@ -186,10 +186,36 @@ class PoolExecutor(Executor):
             if val is not None and contains_guard(val): fr.locals[src[0]] = UNINIT
 
 
-def closure_fn(prog, pattern=r'thread_pool::.*::new::\{closure#0\}'):
+def _calls_of(f):
+    out = []
+    for blk in f.blocks.values():
+        for stt in blk:
+            if stt and stt[0] == 'call': out.append(str(stt[2]))
+    return out
+
+
+def closure_fn(prog, pattern=None):
+    """with a pattern: the first closure whose name matches.  Without: the worker loop of the pool -- the closure in the
+    thread_pool module that takes the queue lock / receives from the channel (identified by what it calls, not by its
+    position, so that helper closures added by a refactoring do not shift it)"""
+    if pattern is not None:
+        for name, f in prog.crate_fns['rws'].items():
+            if re.search(pattern, name) and not f.is_const: return f
+        return None
+    cands = []
     for name, f in prog.crate_fns['rws'].items():
-        if re.search(pattern, name) and not f.is_const: return f
-    return None
+        if f.is_const or 'thread_pool::' not in name: continue
+        calls = _calls_of(f)
+        direct = any(re.search(r'Mutex(::<.*>|<.*>)?::lock$|Receiver(::<.*>|<.*>)?::(recv|try_recv|recv_timeout)$', c) for c in calls)
+        if '{closure' in name and direct: cands.append((0, name, f))
+        elif '{closure' in name:
+            # the loop may call a helper of the same module that takes the lock (fn next_job(..)): one level of indirection
+            for c in calls:
+                g = prog.get(re.sub(r'::<.*>$', '', c), 'rws') if 'thread_pool' in c or 'Worker::' in c or 'ThreadPool::' in c else None
+                if g is not None and any(re.search(r'Mutex(::<.*>|<.*>)?::lock$|Receiver(::<.*>|<.*>)?::(recv|try_recv|recv_timeout)$', c2) for c2 in _calls_of(g)):
+                    cands.append((1, name, f)); break
+    cands.sort(key=lambda t: (t[0], t[1]))
+    return cands[0][2] if cands else None
 
 
 def find_loop_head(fn):
